@@ -91,7 +91,7 @@ def resolves(t, defs, blk, child):
         return True
     cands = []
     if child:
-        cands = [blk + '//' + t, blk.split('//')[0] + '//' + t]
+        cands = [blk + '//' + t]        # as the reference parser compiles it: a child of the block that holds the rule (not a sibling)
     else:
         cands = [t]
     for c in cands:
@@ -222,7 +222,7 @@ def run(tier):
     ns = source_side(fnd)
     ev.add(states=len(cfgs), transitions=tot + ns, traces_validated_against_impl=tot, source_side_names=ns, upstream_profiles=sorted(up))
     ev.add(rule='state = build tree; transition = one reference resolved against the definition set of the same tree')
-    ev.assume('AppArmor resolution, weakest defensible reading: Cx/cx -> n must be a child of the enclosing block or of its top-level profile; Px/px/Ux/change_profile -> n a top-level name or a fully qualified a//b; globs match against the definition set; `unconfined` and :ns: forms accepted',
+    ev.assume('AppArmor resolution, weakest defensible reading: Cx/cx -> n must be a child of the block that holds the rule (that is what the reference parser compiles: read off its transition table); Px/px/Ux/change_profile -> n a top-level name or a fully qualified a//b; globs match against the definition set; `unconfined` and :ns: forms accepted',
               'definition set includes the profiles of the upstream policy directory /etc/apparmor.d the package is installed next to: %s' % sorted(up))
     return C.conclude(ev, fnd)
 
